@@ -206,8 +206,14 @@ def read_passthrough(ctx: Context, rule: str) -> None:
                     e = strip_await(e.args[1])
                 if isinstance(e, ast.Constant) and e.value == b"":
                     hs = [a for a in _anc(r, f) if isinstance(a, ast.ExceptHandler)]
-                    if not any(h.type is not None and any(x in ast.unparse(h.type) for x in EOF_EXC) for h in hs):
-                        problems.append(f"returns b'' (end of stream) outside an end-of-stream handler at line {r.lineno}")
+                    def _only_eof(h: ast.ExceptHandler) -> bool:
+                        if h.type is None:
+                            return False
+                        elts = h.type.elts if isinstance(h.type, ast.Tuple) else [h.type]
+                        return all((chain(e) or [""])[-1] in EOF_EXC for e in elts)
+                    if not hs or not _only_eof(hs[0]):
+                        problems.append(f"returns b'' (= orderly end of stream) at line {r.lineno} " + (f"for `except {ast.unparse(hs[0].type) if hs[0].type is not None else ''}`" if hs else "outside a handler") +
+                                        f": only {list(EOF_EXC)} means the peer finished; a broken / reset connection reported as b'' ends a close-delimited body early without error")
                     continue
                 ok = False
                 if isinstance(e, ast.Call):
